@@ -4,7 +4,7 @@ From Gv Require Import lib.Bytes lib.Json lib.Gql lib.Exec
      C01.ProofsBase C01.ProofsFuel C01.ProofsSplit C01.ProofsSim C01.ProofsJoin C01.ProofsOverlap
      C01.ProofsTwoStep C01.ProofsViol C01.ProofsCtxBase C01.ProofsCtx C01.ProofsTwoStepWf C01.ProofsPlanAlg
      C01.ProofsPlan C01.ProofsPlanOk C01.ProofsDedup C01.ProofsListHop C01.ProofsListHopWf
-     C01.ProofsTvStatic C01.ProofsTvDefs C01.ProofsTvHidden C01.ProofsPlanGen C01.ProofsPlan2 C01.ProofsFuelSuff C01.ProofsPlan3 C01.ProofsPlan3Keys.
+     C01.ProofsTvStatic C01.ProofsTvDefs C01.ProofsTvHidden C01.ProofsPlanGen C01.ProofsPlan2 C01.ProofsFuelSuff C01.ProofsNKeyDefs C01.ProofsPlan3 C01.ProofsPlan3Keys.
 Open Scope N_scope.
 
 
@@ -26,24 +26,24 @@ Section FetchOne.
   Qed.
 
   (* the entity request without the planner's __typename, at any sufficient fuel *)
-  Lemma ent_req_resp (T : name) (sel : list selection) (si : nat) (ks : list name) (e : entity) (kq g fX : nat) :
+  Lemma ent_req_resp (T : name) (sel : list selection) (si : nat) (r : json) (e : entity) (kq g fX : nat) :
     In e U -> en_type e = T ->
     config_wf_b sc (sub_at sc subs si) = true -> univ_ok_b (sub_at sc subs si) U = true ->
     plain_sels sel -> sels_nospread sel = true -> sels_noent sel = true ->
     req_ok_b (sub_at sc subs si) [] vars not_repr kq T sel = true ->
-    find_by_repr U (repr_of e ks) = Some e ->
-    reqs_covered e sel ks = true ->
+    find_by_repr U r = Some e ->
+    (forall s, In s sel -> forall x, In x (fval_reqs (ent_fval e (sel_fname s))) ->
+                                     req_read Sub (Some r) e x = req_read Mono None e x) ->
     (fuel_bound sc sel + 4 <= g)%nat -> (fuel_bound sc sel <= fX)%nat ->
     let X := exec_sels sc U [] vars Mono fX T {| ov_ent := e; ov_repr := None |} sel [] in
     execute g (sub_at sc subs si) U Sub (entities_doc (rep_vd :: vdsM) T sel []) None
-            (JObj ((s_representations, JArr [repr_of e ks]) :: supM)) =
+            (JObj ((s_representations, JArr [r]) :: supM)) =
     {| rs_data := JObj [(s_entities, JArr [ojson (fst X)])];
        rs_errs := shift_errs [PN s_entities; PI 0] (snd X) |}.
   Proof.
     intros HeU HT Hwf Hu Hpl Hns Hne Hreq Hfind Hcov Hg HfX X.
     set (sc2 := sub_at sc subs si) in *.
     set (fb := fuel_bound sc sel) in *.
-    set (r := repr_of e ks) in *.
     assert (Hroot2 : find_entity U (s_query sc2) [] = Some eQ).
     { pose proof Hwf as Hq. unfold config_wf_b in Hq. repeat (apply andb_true_iff in Hq; destruct Hq as [Hq ?]).
       apply bytes_eqb_eq in Hq. rewrite Hq. exact HeQ. }
@@ -79,29 +79,31 @@ Section FetchOne.
     - cbn [supplied_members]. apply flatten_plain_fields; [exact Hpl|exact Hlen].
     - cbn [supplied_members]. constructor; [|constructor].
       split; [exact Hfind|]. split; [exact HT|]. split.
-      + apply reqs_covered_agree. exact Hcov.
+      + exact Hcov.
       + fold (vars2_of vdsM supM T sel r). rewrite Hmono. unfold X. apply HnX. exact HfX.
     - clear -Hg. lia.
   Qed.
 
   (* TO PROVE *)
-  Lemma fetch_one_spec (T : name) (sel : list selection) (m : list (bytes * json)) (si : nat) (ks : list name) (e : entity) (kq : nat) :
+  Lemma fetch_one_spec (T : name) (sel : list selection) (m : list (bytes * json)) (si : nat) (ks : list name) (kn : nkspec)
+        (r : json) (e : entity) (kq : nat) :
     In e U -> en_type e = T ->
     config_wf_b sc (sub_at sc subs si) = true -> univ_ok_b (sub_at sc subs si) U = true ->
     plain_sels sel -> sels_nospread sel = true -> sels_noent sel = true ->
     req_ok_b (sub_at sc subs si) [] vars not_repr kq T sel = true ->
-    repr_from ks m = repr_of e ks ->
-    find_by_repr U (repr_of e ks) = Some e ->
-    reqs_covered e sel ks = true ->
+    repr_from_n ks kn m = r ->
+    find_by_repr U r = Some e ->
+    (forall s, In s sel -> forall x, In x (fval_reqs (ent_fval e (sel_fname s))) ->
+                                     req_read Sub (Some r) e x = req_read Mono None e x) ->
     (fuel_bound sc sel + 10 <= f2)%nat ->
     let X := exec_sels sc U [] vars Mono f2 T {| ov_ent := e; ov_repr := None |} sel [] in
-    fst (fetch_one U sc subs [] vdsM supM f2 tn T sel m si ks) = fst X /\
-    (snd (fetch_one U sc subs [] vdsM supM f2 tn T sel m si ks) = [] <-> snd X = []).
+    fst (fetch_one U sc subs [] vdsM supM f2 tn T sel m si ks kn) = fst X /\
+    (snd (fetch_one U sc subs [] vdsM supM f2 tn T sel m si ks kn) = [] <-> snd X = []).
   Proof.
     intros HeU HT Hwf Hu Hpl Hns Hne Hreq Hrep Hfind Hcov Hf2 X.
     assert (Hg : (fuel_bound sc sel + 4 <= f2)%nat) by (clear -Hf2; lia).
     assert (HfX : (fuel_bound sc sel <= f2)%nat) by (clear -Hf2; lia).
-    pose proof (ent_req_resp T sel si ks e kq f2 f2 HeU HT Hwf Hu Hpl Hns Hne Hreq Hfind Hcov Hg HfX) as HR.
+    pose proof (ent_req_resp T sel si r e kq f2 f2 HeU HT Hwf Hu Hpl Hns Hne Hreq Hfind Hcov Hg HfX) as HR.
     cbv zeta in HR. fold X in HR.
     assert (HnX : no_oof (snd X) = true) by (apply exec_sels_fuel_sufficient; assumption).
     unfold fetch_one, ent_sel3. rewrite Hrep.
@@ -109,13 +111,13 @@ Section FetchOne.
     - (* with the planner's __typename *)
       unfold add_tn in Eadd. apply andb_true_iff in Eadd. destruct Eadd as [_ Hnk].
       assert (Hn : no_oof (rs_errs (execute f2 (sub_at sc subs si) U Sub (entities_doc (rep_vd :: vdsM) T sel []) None
-                                            (JObj ((s_representations, JArr [repr_of e ks]) :: supM)))) = true).
+                                            (JObj ((s_representations, JArr [r]) :: supM)))) = true).
       { rewrite HR. cbn [rs_errs]. rewrite no_oof_shift. exact HnX. }
       destruct (execute_entities_tn (sub_at sc subs si) U [] (rep_vd :: vdsM) T sel
-                  (JObj ((s_representations, JArr [repr_of e ks]) :: supM)) f2 Hnk Hn) as [Hd He].
+                  (JObj ((s_representations, JArr [r]) :: supM)) f2 Hnk Hn) as [Hd He].
       rewrite HR in Hd, He. cbn [rs_data rs_errs] in Hd, He. rewrite He.
       destruct (rs_data (execute (S f2) (sub_at sc subs si) U Sub (entities_doc (rep_vd :: vdsM) T (tn_sel :: sel) []) None
-                                 (JObj ((s_representations, JArr [repr_of e ks]) :: supM))))
+                                 (JObj ((s_representations, JArr [r]) :: supM))))
         as [| | | | |[|[k1 x] [|? ?]]]; cbn [strip_resp_data] in Hd; try discriminate.
       2:{ destruct x; discriminate Hd. }
       destruct x as [| | | |[|y [|? ?]]|]; cbn [map] in Hd; try discriminate.
@@ -126,6 +128,26 @@ Section FetchOne.
       + destruct (fst X); reflexivity.
       + destruct (ojson (fst X)); cbn [snd]; apply shift_errs_nil.
   Qed.
+  (* flat keys: the representation of [e] from the fields [ks] *)
+  Lemma fetch_one_spec_flat (T : name) (sel : list selection) (m : list (bytes * json)) (si : nat) (ks : list name) (e : entity) (kq : nat) :
+    In e U -> en_type e = T ->
+    config_wf_b sc (sub_at sc subs si) = true -> univ_ok_b (sub_at sc subs si) U = true ->
+    plain_sels sel -> sels_nospread sel = true -> sels_noent sel = true ->
+    req_ok_b (sub_at sc subs si) [] vars not_repr kq T sel = true ->
+    repr_from ks m = repr_of e ks ->
+    find_by_repr U (repr_of e ks) = Some e ->
+    reqs_covered e sel ks = true ->
+    (fuel_bound sc sel + 10 <= f2)%nat ->
+    let X := exec_sels sc U [] vars Mono f2 T {| ov_ent := e; ov_repr := None |} sel [] in
+    fst (fetch_one U sc subs [] vdsM supM f2 tn T sel m si ks []) = fst X /\
+    (snd (fetch_one U sc subs [] vdsM supM f2 tn T sel m si ks []) = [] <-> snd X = []).
+  Proof.
+    intros HeU HT Hwf Hu Hpl Hns Hne Hreq Hrep Hfind Hcov Hf2.
+    apply (fetch_one_spec T sel m si ks [] (repr_of e ks) e kq HeU HT Hwf Hu Hpl Hns Hne Hreq); try assumption.
+    - rewrite repr_from_n_nil. exact Hrep.
+    - apply reqs_covered_agree. exact Hcov.
+  Qed.
 End FetchOne.
 
 Print Assumptions fetch_one_spec.
+Print Assumptions fetch_one_spec_flat.
